@@ -1,3 +1,4 @@
+import Fpdec.Kernels.FromStr
 import Fpdec.Kernels.Swar
 import Fpdec.Lemmas.Parse
 import Fpdec.Props.C06_Sites
@@ -67,5 +68,9 @@ theorem kernel_chunk_contains_8_digits (prof : Profile) (c : Nat) :
     Gen.K.chunk_contains_8_digits prof c = .ok (chunkContains8Digits c) := Kernels.chunk_contains_8_digits_eq prof c
 theorem kernel_chunk_to_u64 (prof : Profile) (c : Nat) :
     Gen.K.chunk_to_u64 prof c = .ok (chunkToU64 c) := Kernels.chunk_to_u64_eq prof c
+
+/-- `impl FromStr for Decimal` (everything after the parser call), as translated on this run -/
+theorem kernel_decimal_from_str (prof : Profile) (lit : List Nat) : Gen.K.decimal_from_str prof lit = fromStr prof lit :=
+  Kernels.decimal_from_str_eq prof lit
 
 end Fpdec.Props.C06
